@@ -61,6 +61,7 @@ def run_one(k, cfg):
     kinds, strategy, jobs, explicit = cfg[:4]
     cc = len(cfg) > 4 and cfg[4]
     killgold = len(cfg) > 5 and cfg[5]
+    memgold = len(cfg) > 6 and cfg[6]
     r = random.Random(k)
     text = make_input(kinds, r)
     if cc:
@@ -85,6 +86,11 @@ def run_one(k, cfg):
         # killed by ddSMT - that is not "ended the same way"
         spec += ';killaccept=1'
         opts += ['--ignore-output']
+    if memgold:
+        # the failure to reproduce IS the exhaustion of the memory limit: the
+        # golden run and every accepted candidate allocate until refused
+        spec += ';allocaccept=1'
+        opts += ['--memout', '64']
     if cc:
         spec += ';sleepif=slow1:1300'
         opts += ['-c', f'{FAULTCMD} {flog}.cc keep=check-sat']
@@ -134,7 +140,7 @@ def run_one(k, cfg):
     res = {
         'cfg': {'kinds': list(kinds), 'strategy': strategy, 'jobs': jobs,
                 'explicit': explicit, 'cc': bool(cc),
-                'killgold': bool(killgold)},
+                'killgold': bool(killgold), 'memgold': bool(memgold)},
         'text': text, 'status': p.returncode, 'timed_out': timed_out,
         'wall': wall, 'stderr': err.decode('utf-8', 'replace')[-1500:],
         'left': left,
@@ -186,7 +192,8 @@ def main():
         with open(a.replay) as f:
             c = json.load(f)['replay']['cfg']
         cfgs = [(tuple(c['kinds']), c['strategy'], c['jobs'], c['explicit'],
-                 c.get('cc', False), c.get('killgold', False))]
+                 c.get('cc', False), c.get('killgold', False),
+                 c.get('memgold', False))]
     elif a.tier == 'quick':
         explicit = [c for c in cfgs if c[3]]
         derived = [c for c in cfgs if not c[3] and len(c[0]) == 1]
@@ -206,8 +213,13 @@ def main():
         cfgs += [(('hang', ), 'ddmin', 1, True, False, True),
                  (('spin', 'hang'), 'hierarchical', 2, True, False, True),
                  (('hang', ), 'hybrid', 2, False, False, True)]
+        # the golden run exhausts its memory limit, with and without an
+        # explicit time limit
+        cfgs += [(('hang', ), 'ddmin', 1, False, False, False, True),
+                 (('hang', ), 'hybrid', 2, True, False, False, True)]
     if os.environ.get('VERIF_C10_ONLY') == 'killgold':
-        cfgs = [c for c in cfgs if len(c) > 5 and c[5]]
+        cfgs = [c for c in cfgs if len(c) > 5 and (c[5] or (
+            len(c) > 6 and c[6]))]
     from concurrent.futures import ThreadPoolExecutor
     runs.calibrate()
     with ThreadPoolExecutor(5) as ex:
@@ -237,6 +249,16 @@ def main():
             rep.violation(f'exit-status:{sig}',
                           f'exit status {rr["status"]} for {cfg}', rp)
         gold = next((e for e in rr['events'] if e['ev'] == 'golden'), None)
+        if cfg.get('memgold') and gold and gold.get('golden'):
+            # the golden run is a run like any other: under --memout 64 the
+            # command cannot get 1.5 GB (exit 4), it is refused (exit 3)
+            if gold['golden'][0] != 3:
+                rep.violation(
+                    f'golden-run-not-limited:{sig}',
+                    f'--memout 64: the golden run of a command that '
+                    f'allocates until it is refused ended with exit status '
+                    f'{gold["golden"][0]} (3 = refused under the limit, 4 = '
+                    f'got 1.5 GB): the limit was not in force; {cfg}', rp)
         limit = rr['limit']
         if gold and limit is None:
             limit = gold['timeout']
